@@ -52,6 +52,10 @@ def run(ctx):
     for it in range(n_cases):
         n_units = rng.randint(1, 6)
         exprs = [gen.rand_expr_flat(rng, n_units, 2, 3, 2, p_zero=0.25) for _ in range(rng.randint(1, 5))]
+        if it % 5 == 3:
+            # map/fork-shaped provenance (one literal per row) in which some rows are present when their unit is ABSENT
+            exprs = [{"eq": [rng.randrange(n_units), (0 if rng.random() < 0.4 else 1)]} for _ in range(rng.randint(2, 6))]
+            exprs[0] = {"eq": [exprs[0]["eq"][0], 0]}
         table = tables.rand_table(rng, exprs, n_units, p_fail=0.2)
         null = Fraction(rng.randrange(-16, 17), 4)
         prov, _, _ = make_prov(I, exprs, n_units)
